@@ -1,9 +1,10 @@
 #!/bin/bash
-# Idempotent, offline bootstrap of /verif/.venv: a venv of /venv's python with
+# Idempotent, offline bootstrap of <root>/.venv: a venv of /venv's python with
 # /venv's site-packages visible (so the editable install of /repo is what is
-# analysed) plus z3-solver and crosshair-tool from the offline wheelhouse.
+# analysed) plus z3-solver (and crosshair-tool) from the offline wheelhouse.
 set -e
-V=/verif/.venv
+ROOT="$(cd "$(dirname "$0")/.." && pwd)"
+V="$ROOT/.venv"
 STAMP=$V/.ok2
 if [ -f "$STAMP" ] && "$V/bin/python" -c "import z3, gtirb_rewriting" 2>/dev/null; then exit 0; fi
 (
@@ -17,4 +18,4 @@ if [ -f "$STAMP" ] && "$V/bin/python" -c "import z3, gtirb_rewriting" 2>/dev/nul
   PIP_NO_INDEX=1 "$V/bin/pip" install -q --no-index --find-links /opt/veriftools/wheels z3-solver
   "$V/bin/python" -c "import z3, gtirb_rewriting, gtirb, mcasm"
   touch "$STAMP"
-) 9>/verif/.venv.lock
+) 9>"$ROOT/.venv.lock"
